@@ -3,6 +3,7 @@ from ..runner import Case
 from .. import gen, core
 
 ID = "C17"
+OPT_MODE = False     # (moves / WL runs / plots are not re-run under python -O)
 LEAN_TARGETS = ["Cider.Props.C17", "Cider.Props.C02Tie"]
 P = "Cider.C17."
 THEOREMS = ["Cider.C02.gen_charge_eq_published"] + [P + t for t in (
@@ -72,6 +73,10 @@ def structured_cases(rng, tier):
             extra = " %d %d" % (rng.randrange(L), rng.randrange(L)) if k == "swap" else ""
             yield Case(["move %s %s - %d 2%s" % (k, s, rng.randint(0, 10 ** 6), extra)], {"kind": "kappa-warmed-" + k})
         yield Case(["move shuffle,swapcharge,shuffle %s - %d 2" % (s, rng.randint(0, 10 ** 6))], {"kind": "kappa-warmed-chain"})
+    for _ in range(30 if tier == "quick" else 300):
+        s = gen.rand_seq(rng, rng.choice(["polyampholyte", "idp", "blocky"]), rng.randint(8, 30))
+        yield Case(["move %s %s - %d 3" % (rng.choice(["shuffle", "shuffle,shuffle", "swapcharge,shuffle", "shuffle,swapcharge"]), s, rng.randint(0, 10 ** 6))],
+                   {"kind": "parent-holds-permutant"})
         yield Case(["move api_shuffle %s - %d 1" % (s, rng.randint(0, 10 ** 6))], {"kind": "kappa-warmed-api"})
         yield Case(["move api_shuffle %s 0,%d %d 1" % (s, L - 1, rng.randint(0, 10 ** 6))], {"kind": "kappa-warmed-api"})
 
